@@ -1784,7 +1784,15 @@ pub mod gen {
         };
         let slots = match &forced {
             Some((sh, _)) => rng.usize_in(sh.len(), 4),
-            None => rng.usize_in(2, 4),
+            // mostly 2..4 slots (aliasing is frequent there); one run in six a larger memory, including moduli that
+            // are not powers of two and the 8-bit boundary
+            None => {
+                if rng.chance(1, 6) {
+                    *rng.pick(&[5usize, 7, 8, 16, 100, 255, 256])
+                } else {
+                    rng.usize_in(2, 4)
+                }
+            }
         };
         let k = match &forced {
             Some((sh, _)) => sh.len(),
@@ -1797,16 +1805,24 @@ pub mod gen {
             slot_of.swap(i, j);
         }
         let mut streams = vec![]; // (fid, len, nfrag, lab, ptype, seed)
+        // header extensions of a stream's first fragment (the receiver knows every mandatory id used): a sixth of
+        // the streams; chains of 1..4 entries of every kind
+        let mut table = ExtTable::default();
+        let mut sx: Vec<Option<(Vec<(u16, Vec<u8>)>, u16)>> = vec![];
+        let big = forced.is_none() && rng.chance(1, 20);
         let mut maxlen = 1;
         for s in 0..k {
-            let fid = (slot_of[s] + slots * rng.usize_in(0, 255 / slots - 1)) as u8;
+            let fid = (slot_of[s] + slots * rng.usize_in(0, (255 - slot_of[s]) / slots)) as u8;
             let nfrag = match &forced {
                 Some((sh, _)) => sh[s],
                 None => rng.usize_in(2, 5),
             };
-            let len = rng.usize_in(nfrag * 2, 400);
+            let len = if big { rng.usize_in(3000, 9000) } else { rng.usize_in(nfrag * 2, 400) };
+            // every piece has to fit one packet
+            let nfrag = if big { nfrag.max(len / 2500 + 2) } else { nfrag };
             maxlen = maxlen.max(len);
             streams.push((fid, len, nfrag, label(rng, false), ptype(rng), rng.next()));
+            sx.push(if rng.chance(1, 6) { Some(ext_chain(rng, &mut table)) } else { None });
         }
         let pct = rng.chance(1, 2);
         let mut prio: Vec<u64> = (0..k).map(|_| rng.next()).collect();
@@ -1831,7 +1847,7 @@ pub mod gen {
                         // aliasing an open slot with a different id
                         let s = rng.below(used_fids.len() as u64) as usize;
                         let base = used_fids[s] as usize % slots;
-                        let mut f = (base + slots * rng.usize_in(0, 255 / slots - 1)) as u8;
+                        let mut f = (base + slots * rng.usize_in(0, (255 - base) / slots)) as u8;
                         if used_fids.contains(&f) {
                             f = f.wrapping_add(slots as u8);
                         }
@@ -1861,8 +1877,11 @@ pub mod gen {
                         // the abandoned PDU is sent again from its start: same label, protocol type, length, content
                         let old = streams[s];
                         streams.push(old);
+                        let oldx = sx[s].clone();
+                        sx.push(oldx);
                     } else {
                         streams.push((fid, len, nfrag, label(rng, false), ptype(rng), rng.next()));
+                        sx.push(if rng.chance(1, 6) { Some(ext_chain(rng, &mut table)) } else { None });
                     }
                     left.push(nfrag);
                     started.push(false);
@@ -1878,7 +1897,7 @@ pub mod gen {
                 let c: Vec<usize> = (0..left.len()).filter(|s| started[*s] && left[*s] > 0).collect();
                 if !c.is_empty() {
                     let s = *rng.pick(&c);
-                    let mut fid = (streams[s].0 as usize % slots + slots * rng.usize_in(0, 255 / slots - 1)) as u8;
+                    let mut fid = (streams[s].0 as usize % slots + slots * rng.usize_in(0, (255 - streams[s].0 as usize % slots) / slots)) as u8;
                     let mut guard = 0;
                     while used_fids.contains(&fid) && guard < 300 {
                         fid = fid.wrapping_add(slots as u8);
@@ -1892,6 +1911,7 @@ pub mod gen {
                         let len = rng.usize_in(nfrag * 2, 300);
                         maxlen = maxlen.max(len);
                         streams.push((fid, len, nfrag, label(rng, false), ptype(rng), rng.next()));
+                        sx.push(None);
                         left.push(nfrag);
                         started.push(false);
                         rem.push(len);
@@ -1921,7 +1941,10 @@ pub mod gen {
             if !started[s] {
                 // first fragment: carries a share of the payload; a sixth of the streams carry optional extensions
                 let share = (len / streams[s].2).max(1);
-                let exts: Vec<(u16, Vec<u8>)> = if seed % 6 == 0 { vec![(0x0200 | (seed >> 8) as u16 & 0xFF, vec![(seed >> 16) as u8, (seed >> 24) as u8]), (0x0100 | (seed >> 32) as u16 & 0xFF, vec![])] } else { vec![] };
+                let (exts, pt): (Vec<(u16, Vec<u8>)>, u16) = match &sx[s] {
+                    Some((e, p)) => (e.clone(), *p),
+                    None => (vec![], pt),
+                };
                 let extlen: usize = exts.iter().map(|e| e.1.len() + 2).sum();
                 let buf = 7 + lab.len() + extlen + share;
                 ops.push(submit(len, seed, pt, &lab, fid, buf, &exts));
@@ -1954,7 +1977,7 @@ pub mod gen {
         }
         // storage: the maximum, or exactly one buffer per slot (free list empty while every slot is busy)
         let nbuf = if rng.chance(1, 3) { slots } else { slots + 2 };
-        Program { scenario: "flow", cfg: cfg(slots, maxlen + 50, nbuf, mode, &ExtTable::default()), ops }
+        Program { scenario: "flow", cfg: cfg(slots, maxlen + 50, nbuf, mode, &table), ops }
     }
 
     fn gen_c10(rng: &mut Rng) -> Program {
